@@ -4,6 +4,7 @@ import (
 	"encoding/hex"
 	"fmt"
 	"math/big"
+	"os"
 	"sort"
 
 	"verifsim/core"
@@ -19,7 +20,7 @@ func baseKinds() map[string]float64 {
 
 // NewConfig draws the swarm configuration of one world for the given property and tier.
 func NewConfig(prop string, tier string, r *core.Rand) Config {
-	c := Config{Property: prop, KindW: baseKinds(), AvoidKnown: true}
+	c := Config{Property: prop, KindW: baseKinds(), AvoidKnown: os.Getenv("VERIF_AVOID_KNOWN") != "0"}
 	c.Blocks = r.Range(14, 36)
 	if tier == "thorough" {
 		c.Blocks = r.Range(16, 60)
@@ -235,9 +236,9 @@ type Generator struct {
 	freshCtr              int
 	enumLeft              int
 	pendingGenesisUnstake int
-	absentNow map[Addr]bool
-	absentHist map[Addr]int64
-	curH int64
+	absentNow             map[Addr]bool
+	absentHist            map[Addr]int64
+	curH                  int64
 }
 
 func NewGenerator(w *World) *Generator {
